@@ -28,4 +28,4 @@ require (
 	golang.org/x/text v0.17.0 // indirect
 )
 
-replace github.com/trzsz/trzsz-go => /repo
+replace github.com/trzsz/trzsz-go => /tmp/w/c17/repo
